@@ -17,6 +17,7 @@ def V(xs): return {"t": "vec", "xs": list(xs)}
 def T(xs): return {"t": "tup", "xs": list(xs)}
 def Pt(x, tag): return {"t": "struct", "name": "Pt", "fields": [{"n": "x", "v": I(x)}, {"n": "tag", "v": S(tag)}]}
 def W(s): return {"t": "tstruct", "name": "W", "xs": [S(s)]}
+def En(n): return {"t": "struct", "name": n, "fields": []}      # a unit-like enum variant renders as its name
 
 
 def strs(alpha, n):
@@ -53,6 +54,8 @@ def domains(alpha_id, maxlen2, maxlen3, int_lo_neg, int_hi):
     D["sl"] = [[V(I(x) for x in a)] for a in seqs(small, 3)]
     D["m_pt"] = [[Pt(x, tag), I(a)] for x in small for tag in S2 for a in small]
     D["m_w"] = [[W(a), S(b)] for a in S2 for b in S2]
+    D["m_en_en"] = [[En(a), En(b)] for a in ("A", "AB", "ABC") for b in ("B", "BC", "C", "CB")]
+    D["m_u_u_u"] = [[I(a), I(b), I(c)] for a in (1, 7, 71, 11, 112) for b in (1, 11, 12, 2) for c in (1, 2, 12)]
     D["five"] = [[I(a), I(b), S(c), C(d), B(e)] for a in (0, 7, 77) for b in (-7, 7) for c in S2 for d in A
                  for e in (False, True)]
     return D
